@@ -177,6 +177,11 @@ func DrawValsMode(t *rapid.T, n, leaf int, mode string) []float64 {
 	return v
 }
 
+// Exponents of the single-operation checks: every small integer of either sign, larger ones
+// around powers of two, and (positive bases only) fractions of either sign.
+var powExpNonZeroWide = []float64{-65, -64, -17, -8, -7, -6, -5, -4, -3, -2, -1, 0, 1, 2, 3, 4, 5, 6, 7, 8, 17, 64, 65}
+var powExpPosWide = append([]float64{-3.7, -2.5, -1.5, -0.5, -1.0 / 3, 0.1, 1.0 / 3, 0.5, 1.5, 2.5, 3.7}, powExpNonZeroWide...)
+
 type single struct {
 	t   *rapid.T
 	cfg SingleCfg
@@ -216,10 +221,10 @@ func GenSingle(t *rapid.T, op string, cfg SingleCfg) Program {
 		switch rapid.IntRange(0, 2).Draw(t, "regime") {
 		case 0:
 			n.In = []int{s.leaf(shape(0), "pos")}
-			n.F = rapid.SampledFrom(powExpPos).Draw(t, "p")
+			n.F = rapid.SampledFrom(powExpPosWide).Draw(t, "p")
 		case 1:
 			n.In = []int{s.leaf(shape(0), "nonzero")}
-			n.F = rapid.SampledFrom(powExpNonZero).Draw(t, "p")
+			n.F = rapid.SampledFrom(powExpNonZeroWide).Draw(t, "p")
 		default:
 			n.In = []int{s.leaf(shape(0), "zeros")}
 			n.F = rapid.SampledFrom([]float64{0, 1, 2, 3, 4}).Draw(t, "p")
@@ -359,6 +364,7 @@ func GenSingle(t *rapid.T, op string, cfg SingleCfg) Program {
 	n.Twice = rapid.IntRange(0, 5).Draw(t, "twice") == 0
 	s.p.Nodes = []Node{n}
 	s.p.Disturb = rapid.IntRange(0, 3).Draw(t, "disturb") == 0
+	s.p.UseResult = rapid.IntRange(0, 3).Draw(t, "useresult") == 0
 	return s.p
 }
 
